@@ -187,7 +187,8 @@ function runCase(spec, abuf, bbuf) {
   try { ma = new WebAssembly.Module(abuf); } catch (e) { return { verdict: 'skip', detail: 'input does not compile in V8: ' + errClass(e) }; }
   try { mb = new WebAssembly.Module(bbuf); } catch (e) { return { verdict: 'diff', detail: 'output does not compile in V8 although the input does: ' + errClass(e) }; }
   // the export lists must agree (names and kinds, in order)
-  const ea = WebAssembly.Module.exports(ma).map(e => e.name + ':' + e.kind).join(','), eb = WebAssembly.Module.exports(mb).map(e => e.name + ':' + e.kind).join(',');
+  // export order is not fixed by the properties: compare as sets
+  const ea = WebAssembly.Module.exports(ma).map(e => e.name + ':' + e.kind).sort().join(','), eb = WebAssembly.Module.exports(mb).map(e => e.name + ':' + e.kind).sort().join(',');
   if (ea !== eb) return { verdict: 'diff', detail: 'export lists differ: ' + ea + ' vs ' + eb };
   // both sides get objects for *all* of the input's imports (a pass may have dropped some from
   // the output; extra entries in an import object are ignored by instantiation), so that state
